@@ -46,12 +46,12 @@ type Ash struct {
 // Call the function with the arguments provided.
 func (f *Ash) Call(s *slip.Scope, args slip.List, depth int) (result slip.Object) {
 	slip.CheckArgCount(s, depth, f, args, 2, 2)
-	shift, ok := args[1].(slip.Fixnum)
+	shift, ok := canonicalNumber(args[1]).(slip.Fixnum)
 	if !ok {
 		slip.TypePanic(s, depth, "shift", args[1], "fixnum")
 	}
 	sh := int(shift)
-	switch ti := args[0].(type) {
+	switch ti := canonicalNumber(args[0]).(type) {
 	case slip.Fixnum:
 		switch {
 		case sh < 0:
